@@ -14,7 +14,11 @@ def load_table():
 
 
 def site_key(fn, s, seen):
-    base = f"{fn['path']}|{s['kind']}|{s['detail']}"
+    detail = s["detail"]
+    if s["kind"] == "unwrap":
+        # unwrap() and expect("..") are the same site: changing the message must not change the key
+        detail = {"expect": "unwrap", "expect_err": "unwrap_err"}.get(detail, detail)
+    base = f"{fn['path']}|{s['kind']}|{detail}"
     n = seen.get(base, 0)
     seen[base] = n + 1
     return base if n == 0 else f"{base}#{n + 1}"
